@@ -1,5 +1,19 @@
 """Function-body specs for cnvlib/export.py (property C20): the per-row columns and ONE ITERATION of the record loop of
-segments2vcf."""
+segments2vcf, theta_read_counts, export_bed's `show` dispatch and export_nexus_ogt's low-weight filter (the last two per row
+through the spec key row_keep: `T = T[mask]` is "the row stays in T"), export_theta's row identifier, export_bed's label / ncopies
+columns.
+
+Mutations of the last two, tried with tools/mut_fn.sh:
+  FnExportBedShow  `out["ncopies"] != ploidy` -> `== ploidy`                            KILLED (source_bed_show)
+                   `elif show == "variant":` -> `elif show == "variants":`              KILLED
+                   `out["ncopies"] != exp_copies` -> `!= ploidy`                        KILLED
+  FnExportOgtMask  `cnarr["weight"] < min_weight` -> `<= min_weight`                    KILLED (source_ogt_keep)
+                   `cnarr[~mask_low_weight]` -> `cnarr[mask_low_weight]`                KILLED
+  FnExportThetaId  `:end_{row.chrm}_{row.end}` -> `:end_{row.chrm}_{row.start}`         KILLED (source_theta_id)
+                   `start_{row.chrm}_` -> `start_{row.start}_`                          KILLED
+  FnExportBedCols  `label if label else segments["gene"]` -> `segments["gene"] if label else label`   KILLED (source_bed_label)
+                   `.round()` dropped before `.astype("int")`                          KILLED (source_bed_ncopies)
+"""
 _PY = ['segments', 'ploidy', 'is_haploid_x_reference', 'diploid_parx_genome', 'is_sample_female']
 MODULES = {
     'FnExportVcf': ('cnvlib/export.py', [
@@ -42,5 +56,59 @@ MODULES = {
         dict(name='theta_read_counts', coq='fn_theta_count',
              params=[('log2_ratio', 'OQ'), ('nbins', 'Q'), ('avg_depth', 'Z'), ('avg_bin_width', 'Z'), ('read_len', 'Z')],
              ret='Z'),
+    ]),
+    # export_bed: the `show` dispatch (fragment `if show == "ploidy": out = out[out["ncopies"] != ploidy] elif show ==
+    # "variant": exp_copies = call.absolute_expect(...); out = out[out["ncopies"] != exp_copies]`) read per row as "the row
+    # stays in `out`" (row_keep: `T = T[mask]` is row_keep__ = row_keep__ and mask).
+    # (Proofs/FnExportBedShow.v: C20_source_bed_show -- the masks Model/Export.v export_bed selects by, per row)
+    # mutations (tools/mut_fn.sh): `out["ncopies"] != ploidy` -> `out["ncopies"] == ploidy` KILLED; `elif show == "variant"` ->
+    # `elif show == "variants"` KILLED; `!= exp_copies` -> `!= ploidy` KILLED
+    'FnExportBedShow': ('cnvlib/export.py', [
+        dict(name='export_bed', coq='fn_bed_keep',
+             py_params=['segments', 'ploidy', 'is_haploid_x_reference', 'diploid_parx_genome', 'is_sample_female', 'label', 'show'],
+             fragment=dict(first='if show ==', last='if show =='), row_keep='out',
+             init=[('row_keep__', 'B', 'true')], returns=['row_keep__'],
+             params=[('show', 'S'), ("out['ncopies']", 'Z', 'ncopies'), ('ploidy', 'Z'),
+                     ('call.absolute_expect(segments, ploidy, diploid_parx_genome, is_sample_female)', 'Z', 'expected')],
+             ret='B'),
+    ]),
+    # export_nexus_ogt: the low-weight filter (fragment `if min_weight and "weight" in cnarr: mask_low_weight = cnarr["weight"]
+    # < min_weight; <log line>; cnarr = cnarr[~mask_low_weight]`) read per row as "the bin stays in cnarr" (row_keep).
+    # The weight is an optional number (NaN is not below anything).
+    # (Proofs/FnExportOgtMask.v: C20_source_ogt_keep / _kept -- Model/Export.v ogt_kept keeps exactly the bins whose generated bit is on)
+    # mutations: `cnarr["weight"] < min_weight` -> `<= min_weight` KILLED; `cnarr[~mask_low_weight]` -> `cnarr[mask_low_weight]` KILLED
+    'FnExportOgtMask': ('cnvlib/export.py', [
+        dict(name='export_nexus_ogt', coq='fn_ogt_keep', py_params=['cnarr', 'varr', 'min_weight'],
+             fragment=dict(first='if min_weight and', last='if min_weight and'), row_keep='cnarr',
+             init=[('row_keep__', 'B', 'true')], returns=['row_keep__'],
+             params=[('min_weight', 'Q'), ("'weight' in cnarr", 'B', 'has_weight'), ("cnarr['weight']", 'OQ', 'weight')],
+             ret='B'),
+    ]),
+    # export_theta: the row identifier (fragment: the statement `table["#ID"] = [f"start_{row.chrm}_{row.start}:end_{row.chrm}_
+    # {row.end}" for row in table.itertuples(index=False)]`, read per row), an f-string of three integers.
+    # (Proofs/FnExportThetaId.v: C20_source_theta_id -- equals Model/Export.v theta_id, hence the #ID of every theta_rows row)
+    # mutations: `:end_{row.chrm}_{row.end}` -> `:end_{row.chrm}_{row.start}` KILLED; `start_{row.chrm}_` -> `start_{row.start}_` KILLED
+    'FnExportThetaId': ('cnvlib/export.py', [
+        dict(name='export_theta', coq='fn_theta_id', py_params=['tumor_segs', 'normal_cn'],
+             fragment=dict(first="table['#ID'] = ", last="table['#ID'] = "), returns=["table['#ID']"],
+             params=[('row.chrm', 'Z', 'chrm'), ('row.start', 'Z', 'start'), ('row.end', 'Z', 'end_')],
+             ret='S'),
+    ]),
+    # export_bed: the label and ncopies columns per row (fragment `out["label"] = label if label else segments["gene"]` ..
+    # `out["ncopies"] = segments["cn"] if "cn" in segments else call.absolute_dataframe(...)["absolute"].round().astype("int")`).
+    # label is None or a string (only its truthiness and value are read: None enters as the empty string); the absolute copy
+    # number of absolute_dataframe is an opaque number.
+    # (Proofs/FnExportBedCols.v: C20_source_bed_label / _ncopies -- Model/Export.v bed_label and the element rule of ncopies_col)
+    # mutations: `label if label else segments["gene"]` -> `segments["gene"] if label else label` KILLED; `.round().astype("int")` -> `.astype("int")` KILLED
+    'FnExportBedCols': ('cnvlib/export.py', [
+        dict(name='export_bed', coq='fn_bed_columns',
+             py_params=['segments', 'ploidy', 'is_haploid_x_reference', 'diploid_parx_genome', 'is_sample_female', 'label', 'show'],
+             fragment=dict(first="out['label'] = ", last="out['ncopies'] = "),
+             returns=["out['label']", "out['ncopies']"],
+             params=[('label', 'S'), ("segments['gene']", 'S', 'gene'), ("'cn' in segments", 'B', 'has_cn'),
+                     ("segments['cn']", 'Z', 'cn'),
+                     ("call.absolute_dataframe(segments, ploidy, 1.0, is_haploid_x_reference, diploid_parx_genome, "
+                      "is_sample_female)['absolute']", 'Q', 'absolute')],
+             ret=['S', 'Z']),
     ]),
 }
